@@ -45,6 +45,9 @@ fn elem_kind(r: &mut Rng, tr: u32, zt: u32, pl: u32) -> ElemKind {
         }
     } else if x < tr + zt {
         ElemKind::Zt
+    } else if r.chance(1, 4) {
+        // zero-sized and plain
+        ElemKind::Zp
     } else {
         ElemKind::Pl
     }
@@ -342,8 +345,9 @@ fn moves_trace(r: &mut Rng, n_ops: u32, table: &[(OpKind, u32)]) -> Vec<Op> {
 
 /// make the array / box an operation will act on right before it, so that the operand length
 /// is a seeded choice rather than whatever the pool happens to hold
-fn with_fresh_operand(r: &mut Rng, ops: &mut Vec<Op>, target: &mut Op) {
+fn with_fresh_operand(r: &mut Rng, ops: &mut Vec<Op>, target: &mut Op) -> Option<u32> {
     let li = len_idx(r);
+    let n = LENS[li as usize] as u32;
     match target.kind {
         Map | Fold if target.args[2] % 4 == 3 => {
             ops.push(Op::new(Generate, &[li, 0]));
@@ -373,7 +377,22 @@ fn with_fresh_operand(r: &mut Rng, ops: &mut Vec<Op>, target: &mut Op) {
             ops.push(Op::new(ArrBox, &[LAST]));
             target.args[0] = LAST;
         }
-        _ => {}
+        _ => return None,
+    }
+    Some(n)
+}
+
+/// fault ordinal relative to a known operand length: first, second, middle, second-to-last, last,
+/// one past the end (the terminating poll of a source), or anywhere
+fn fault_k_rel(r: &mut Rng, n: u32) -> u32 {
+    match r.below(8) {
+        0 => 0,
+        1 => 1.min(n),
+        2 => n / 2,
+        3 => n.saturating_sub(2),
+        4 => n.saturating_sub(1),
+        5 => n,
+        _ => r.below(n + 1),
     }
 }
 
@@ -412,13 +431,20 @@ pub fn gen_trace(prop: Prop, seed: u64) -> Trace {
                     }
                 };
                 let mut op = gen_op(r, kind);
+                let mut known_n = None;
                 if r.chance(3, 4) {
-                    with_fresh_operand(r, &mut ops, &mut op);
+                    known_n = with_fresh_operand(r, &mut ops, &mut op);
+                }
+                if known_n.is_none() && matches!(kind, Generate | BoxedGenerate | DefaultArr | DefaultBoxed | Collect | BuilderRun) {
+                    known_n = Some(LENS[op.args[0] as usize % LENS.len()] as u32);
                 }
                 let seams = callback_seams(kind);
                 let seam = r.pick(seams);
-                // for by-reference map/zip the output is produced by cloning: behaviour 0
-                op.faults.push((seam, fault_k(r)));
+                let k = match known_n {
+                    Some(n) if r.chance(2, 3) => fault_k_rel(r, n),
+                    _ => fault_k(r),
+                };
+                op.faults.push((seam, k));
                 ops.push(op);
                 let follow = r.below(4);
                 ops.extend(moves_trace(r, follow, MOVES));
@@ -440,10 +466,15 @@ pub fn gen_trace(prop: Prop, seed: u64) -> Trace {
                     op.args[2] = r.pick(&[0u32, 1, 1, 2, 5]);
                 }
                 if r.chance(3, 10) {
+                    let mut known_n = None;
                     if r.chance(1, 2) {
-                        with_fresh_operand(r, &mut ops, &mut op);
+                        known_n = with_fresh_operand(r, &mut ops, &mut op);
                     }
-                    op.faults.push((Seam::Drop, fault_k(r)));
+                    let k = match known_n {
+                        Some(n) if r.chance(1, 2) => fault_k_rel(r, n),
+                        _ => fault_k(r),
+                    };
+                    op.faults.push((Seam::Drop, k));
                 }
                 ops.push(op);
             }
@@ -487,12 +518,17 @@ pub fn gen_trace(prop: Prop, seed: u64) -> Trace {
             for _ in 0..n {
                 let mut op = next_op(r, &mut abs, CALLBACK_OPS);
                 let kind = op.kind;
+                let mut known_n = None;
                 if r.chance(1, 2) {
-                    with_fresh_operand(r, &mut ops, &mut op);
+                    known_n = with_fresh_operand(r, &mut ops, &mut op);
                 }
                 if r.chance(1, 8) && !callback_seams(kind).is_empty() {
                     let seam = r.pick(callback_seams(kind));
-                    op.faults.push((seam, fault_k(r)));
+                    let k = match known_n {
+                        Some(n) if r.chance(1, 2) => fault_k_rel(r, n),
+                        _ => fault_k(r),
+                    };
+                    op.faults.push((seam, k));
                 }
                 ops.push(op);
             }
@@ -518,6 +554,7 @@ pub fn gen_trace(prop: Prop, seed: u64) -> Trace {
             for _ in 0..n {
                 let mut op = next_op(r, &mut abs, HEAP_OPS);
                 let kind = op.kind;
+                let mut known_n: Option<u32> = None;
                 if kind == Collect {
                     let nn = LENS[op.args[0] as usize] as u32;
                     op.args[3] = (3 + r.below(3)) << 1;
@@ -529,11 +566,18 @@ pub fn gen_trace(prop: Prop, seed: u64) -> Trace {
                 if matches!(kind, Map | Zip | Fold) && r.chance(2, 3) {
                     // boxed forms
                     if kind == Zip { op.args[3] = 9 } else { op.args[2] = 3 }
-                    with_fresh_operand(r, &mut ops, &mut op);
+                    known_n = with_fresh_operand(r, &mut ops, &mut op);
+                }
+                if known_n.is_none() && matches!(kind, BoxedGenerate | DefaultBoxed | Collect) {
+                    known_n = Some(LENS[op.args[0] as usize % LENS.len()] as u32);
                 }
                 if r.chance(1, 4) && !callback_seams(kind).is_empty() {
                     let seam = r.pick(callback_seams(kind));
-                    op.faults.push((seam, fault_k(r)));
+                    let k = match known_n {
+                        Some(n) if r.chance(1, 2) => fault_k_rel(r, n),
+                        _ => fault_k(r),
+                    };
+                    op.faults.push((seam, k));
                 }
                 ops.push(op);
             }
@@ -565,7 +609,7 @@ pub fn gen_trace(prop: Prop, seed: u64) -> Trace {
                     }
                     SerRecord | SerReal => {
                         if r.chance(1, 2) {
-                            with_fresh_operand(r, &mut ops, &mut op);
+                            let _ = with_fresh_operand(r, &mut ops, &mut op);
                         }
                     }
                     _ => {}
